@@ -83,13 +83,32 @@ def run(report, tier):
         "parameters symbolic. Oracle: no reply object for the entry; the callable's log has exactly one "
         "matching entry (after draining the recording pool: each recorded task run once by the harness); "
         "exactly one enqueue per notification. Client side: proxy._notify.m(...) returns None and emits "
-        "the notification form of its version. Pool scheduling itself is property C09 (composition)."
+        "the notification form of its version. The pool side is decided directly as well: on the "
+        "transition system compiled from threadpool.py the request thread enqueues returning/raising "
+        "notification tasks and goes on while workers interleave in every way (pool sizes 1-2, 3 in the "
+        "thorough tier): no task runs twice, none is stranded, and once the pool is drained each has run "
+        "exactly once (see C09 for the full pool property)."
     )
     report.bounds = {"batch": "n <= 2 (quick) / 3 (thorough)", "strings": "len <= 2/3"}
     report.outside = ["real ThreadPool interleavings (C09 decides them on the transition system)", "codec mapping"]
     report.assumptions = ["recording pool stands for a ThreadPool obeying C09", "token codec stub", "logging disabled"]
     report.trusted_base = ["crosshair-tool 0.0.110", "z3 5.1.0", "harness/disp.py oracle"]
     Runner(report, "harness.disp", tier).run(obligations(tier, H))
+    # pool part, decided directly on the compiled ThreadPool: the request thread enqueues the
+    # notification task(s) and returns at once; workers interleave with it in every way
+    from engine.ts import driver
+
+    full = {"name": "all-interleavings", "depth": 16 if tier != "thorough" else 20, "preempt": None, "timeout": 200 if tier != "thorough" else 1500}
+    jobs = []
+    for mx, mn in [(1, 0), (1, 1), (2, 0), (2, 1)] + ([(2, 2), (3, 0)] if tier == "thorough" else []):
+        ops = ["start", "enq0", "enq1", "join0"]
+        for k in (1, 2, 3):
+            spec = {"name": "c04-pool-max{0}min{1}-op{2}".format(mx, mn, k), "max": mx, "min": mn, "tasks": ["ret", "raise"],
+                    "clients": [ops], "props": ["exactly_once", "nodeadlock", "drained_once", "bounded"],
+                    "join_covers": {"join0": [0, 1]}, "window_at": k, "twin_prog": "progress"}
+            jobs.append((spec, full if mx <= 2 else dict(full, depth=14)))
+    driver.run_all("props.poolscn", jobs, report)
+    report.extra["pool_windows"] = len(jobs)
     spec, leaves = D.batch(["notif20", "notif_raise", "call"])
     report.functions |= traced_functions(H.h_dispatch, {"request": spec, "aspect": "C04", "pool": True}, D.sample_leaves(leaves))
     report.functions |= traced_functions(H.h_client_notify, {"cver": 1.0, "method": "echo", "params": ("list", [("const", 1)])}, {})
